@@ -20,7 +20,7 @@ pub const TICK_FACTOR: u64 = 64;
 pub const TICK_CONST: u64 = 4096;
 
 const ENTRY: [&str; 6] = ["lzma one-shot", "lzma2 one-shot", "xz one-shot", "Stream", "raw LzmaDecoder", "raw Lzma2Decoder"];
-const SRC: [&str; 9] = [
+const SRC: [&str; 10] = [
     "uniformly random bytes",
     "random bytes behind a valid prologue",
     "valid stream, random mutations",
@@ -30,6 +30,7 @@ const SRC: [&str; 9] = [
     "near-valid: LZMA2 framing fault",
     "huge announcements, no payload",
     "C05 / C08 inputs",
+    "structured extremes: several size fields set to huge, mutually plausible values (CRCs repaired)",
 ];
 
 #[derive(Clone)]
@@ -280,6 +281,44 @@ pub fn gen_case(rng: &mut Rng, tier: Tier) -> Case {
                 options = sut::opts(UnpackedSize::ReadFromHeader, None, rng.chance(1, 4));
                 desc = format!("header lc{} lp{} pb{} announcing a huge dictionary and size, {} zero bytes behind it", lc, lp, pb, n);
                 d
+            }
+            9 => {
+                // announcements that only look plausible together: both block size fields,
+                // LZMA2 chunk sizes, index records - with every CRC recomputed
+                match kind {
+                    2 => {
+                        let (mut spec, _) = gen_xz(rng, &XzGenParams::small());
+                        if spec.blocks.is_empty() {
+                            continue;
+                        }
+                        let big = [1u64 << 14, 1 << 20, 1 << 28, 1 << 31, 1 << 32, 1 << 40, (1 << 62) + 5, (1 << 63) - 1];
+                        let bi = rng.usize_below(spec.blocks.len());
+                        let packed = *rng.pick(&big);
+                        let ratio = *rng.pick(&[1u64, 2, 1 << 10, 1 << 14, 1 << 20]);
+                        let unpacked = if rng.chance(1, 2) { packed.saturating_mul(ratio).min((1 << 63) - 1) } else { *rng.pick(&big) };
+                        spec.blocks[bi].packed_size = Some(packed);
+                        spec.blocks[bi].unpacked_size = Some(unpacked);
+                        spec.blocks[bi].flags |= 0xC0;
+                        c06::refit_header(&mut spec.blocks[bi]);
+                        if rng.chance(1, 2) && bi < spec.index_records.len() {
+                            spec.index_records[bi] = (packed.saturating_add(24), unpacked);
+                        }
+                        if rng.chance(1, 4) {
+                            spec.index_count = *rng.pick(&big);
+                        }
+                        desc = format!("xz block {} declares compressed size {} and uncompressed size {}", bi, packed, unpacked);
+                        spec.serialize().0
+                    }
+                    1 => {
+                        // an LZMA2 chunk announcing the largest sizes in front of almost nothing
+                        let mut d = vec![0xE0 | 0x1F, 0xFF, 0xFF, 0xFF, 0xFF, rng.below(225) as u8];
+                        let n = rng.range(0, 40) as usize;
+                        d.extend_from_slice(&rng.bytes(n));
+                        desc = format!("lzma2 chunk announcing 2 MiB / 64 KiB followed by {} bytes", n);
+                        d
+                    }
+                    _ => continue,
+                }
             }
             _ => {
                 if kind != 0 {
